@@ -357,6 +357,7 @@ and select (s : Sexp.t) : select =
     | "joinlateral" -> SCJoin (jointype (List.nth l 0), TSubQuery (select (List.nth l 1), hx (List.nth l 2)), condarg (List.nth l 3), true)
     | "andwhere" -> SCWhere (CAExpr (expr (List.hd l)))
     | "condwhere" -> SCWhere (CACond (cond (List.hd l)))
+    | "andorwhere" -> SCWhereChain (atom (List.hd l) = "or", expr (List.nth l 1))
     | "groupby" -> SCGroupBy (expr (List.hd l))
     | "andhaving" -> SCHaving (CAExpr (expr (List.hd l)))
     | "condhaving" -> SCHaving (CACond (cond (List.hd l)))
@@ -434,6 +435,7 @@ and update (s : Sexp.t) : update =
     | "value" -> UCValue (hx (List.nth l 0), expr (List.nth l 1))
     | "andwhere" -> UCWhere (CAExpr (expr (List.hd l)))
     | "condwhere" -> UCWhere (CACond (cond (List.hd l)))
+    | "andorwhere" -> UCWhereChain (atom (List.hd l) = "or", expr (List.nth l 1))
     | "orderby" -> UCOrderBy (orderexpr l)
     | "limit" -> UCLimit (n_of_dec (atom (List.hd l)))
     | "returning" -> UCReturning (returning c)
@@ -447,6 +449,7 @@ and delete (s : Sexp.t) : delete =
     | "from" -> DCFrom (tref (List.hd l))
     | "andwhere" -> DCWhere (CAExpr (expr (List.hd l)))
     | "condwhere" -> DCWhere (CACond (cond (List.hd l)))
+    | "andorwhere" -> DCWhereChain (atom (List.hd l) = "or", expr (List.nth l 1))
     | "orderby" -> DCOrderBy (orderexpr l)
     | "limit" -> DCLimit (n_of_dec (atom (List.hd l)))
     | "returning" -> DCReturning (returning c)
